@@ -33,7 +33,8 @@ RestrictTo(f,S) == [x \in S |-> f[x]]
 Drop(f, S)    == [x \in (DOMAIN f) \ S |-> f[x]]
 Merge(f, g)   == [x \in (DOMAIN f) \cup (DOMAIN g) |-> IF x \in DOMAIN g THEN g[x] ELSE f[x]]
 Single(k, v)  == [x \in {k} |-> v]
-EmptyFn       == <<>>
+EmptyFn       == [x \in {} |-> x]
+Fn(r)         == [k \in DOMAIN r |-> r[k]]   \* normal form of a JSON object / record as a function
 
 NewWorld(rel) == [ent |-> EmptyFn, issued |-> {}, rel |-> rel, open |-> EmptyFn,
                   cb |-> 0, regF |-> EmptyFn, obs |-> EmptyFn]
